@@ -21,8 +21,8 @@ pub struct Plan {
 
 pub fn plan(tier: Tier) -> Plan {
   match tier {
-    Tier::Quick => Plan { n_gen: 4000, n_model: 2500 },
-    Tier::Thorough => Plan { n_gen: 60000, n_model: 40000 },
+    Tier::Quick => Plan { n_gen: 12000, n_model: 8000 },
+    Tier::Thorough => Plan { n_gen: 300000, n_model: 200000 },
   }
 }
 
@@ -188,9 +188,12 @@ fn parse_ts(text: &str) -> Result<deno_ast::ParsedSource, String> {
 /// constructor part of transform_class_member is run on the source summary of every public
 /// function-like; the real transform (collect mode: workspace fast check) supplies, per unit, the
 /// diagnostics it raised or - from a run without the diagnosed declarations - the emitted shape.
-fn model_case(seed: u64, k: u64) -> Case {
+fn model_case(seed: u64, k: u64, exhaustive_index: Option<usize>) -> Case {
   let mut rng = Rng::for_case(seed, k);
-  let (text, feats) = pkggen::gen_fn_package(&mut rng);
+  let (text, feats) = match exhaustive_index {
+    Some(j) => (pkggen::exhaustive_module(j), vec![("exhaustive-small-domain-case".to_string(), 1u64)]),
+    None => pkggen::gen_fn_package(&mut rng),
+  };
   let mut dist: Vec<(String, u64)> = feats.iter().map(|(f, n)| (format!("model-gen:{}", f), *n)).collect();
   dist.push(("model-stream".into(), 1));
   let mut meta = serde_json::json!({"model_stream": true, "source": text});
@@ -329,6 +332,31 @@ pub fn run(cfg: &RunCfg) {
   let corpus = corpus();
   let p = plan(cfg.tier);
   let n_judged = corpus.len() as u64 + seed_packages().len() as u64 + p.n_gen;
-  let n = n_judged + p.n_model;
-  run_cases(cfg, n, |seed, k| if k < n_judged { gen_case(seed, k, &corpus) } else { model_case(seed, k) });
+  // the exhaustively enumerated small domain of function-likes comes first in the model stream
+  let n_ex = ((pkggen::exhaustive_count() + pkggen::EX_PER_CASE - 1) / pkggen::EX_PER_CASE) as u64;
+  let n = n_judged + n_ex + p.n_model;
+  let lean = cfg.tier == Tier::Thorough && cfg.only_case.is_none();
+  run_cases(cfg, n, |seed, k| {
+    let mut c = if k < n_judged {
+      gen_case(seed, k, &corpus)
+    } else if k < n_judged + n_ex {
+      model_case(seed, k, Some((k - n_judged) as usize))
+    } else {
+      model_case(seed, k, None)
+    };
+    if lean {
+      lean_meta(&mut c.meta);
+    }
+    c
+  });
+  if cfg.only_case.is_none() {
+    let path = cfg.out_dir.join("stats.json");
+    let mut stats: serde_json::Value = serde_json::from_str(&std::fs::read_to_string(&path).unwrap()).unwrap();
+    stats["distribution"]["exhaustive"] = serde_json::json!(format!(
+      "model stream, first {} cases: ALL {} combinations of (7 kinds x 5 return annotations x plain/async/generator x 10 body shapes x 3 parameter lists) + (7 kinds x 30 parameter lists x with/without return type) + (arrow: 5 return annotations x sync/async x 8 expression bodies), minus syntactically impossible ones",
+      n_ex,
+      pkggen::exhaustive_count()
+    ));
+    std::fs::write(&path, serde_json::to_string_pretty(&stats).unwrap()).unwrap();
+  }
 }
